@@ -455,13 +455,43 @@ func c17MQTTDelete(c *core.Ctx, f *flow.Func, decl string, del *ast.CallExpr, cl
 				if !st.Is(evLocked, flow.True) && badLock == nil {
 					badLock = st
 				}
-				if !justified(st) && badDead == nil {
-					badDead = st
+				if !justified(st) {
+					// the registered client is known (looked up under this lock) but live: acceptable only
+					// if every path from here closes it (unregister first, close after unlocking)
+					pend := false
+					for _, l := range lookups {
+						if st.Is(l.ev, flow.True) && l.val != nil {
+							st.Set("ev:c17:deleted-live@"+l.ev, flow.True)
+							pend = true
+						}
+					}
+					if !pend && badDead == nil {
+						badDead = st
+					}
 				}
 			}
 		}})
 	if res == nil {
 		return
+	}
+	whyDead := "the entry is deleted without having established, in the same critical section, that the client currently REGISTERED under this id (looked up from Broker.clients) is absent, disconnected, just closed or the caller's own: after a client-id takeover the teardown of the superseded connection removes its live successor's entry, Broker.clients under-counts, and both cap tests admit more than maxAllowedConnection clients"
+	for _, ex := range res.Exits {
+		st := ex.State
+		for _, l := range lookups {
+			if !st.Is("ev:c17:deleted-live@"+l.ev, flow.True) || badDead != nil {
+				continue
+			}
+			settled := st.Is(l.closed, flow.True) || (l.okKey != "" && st.Is(l.okKey, flow.False)) || st.Is(f.NilKey(l.valID), flow.True)
+			for _, k := range l.dead {
+				if st.Is(k, flow.True) {
+					settled = true
+				}
+			}
+			if !settled {
+				badDead = st
+				whyDead = "the entry of a client that may still be connected is deleted and, on this path, the client is not closed afterwards: the connection stays open and served while Broker.clients no longer counts it, so both cap tests admit more than maxAllowedConnection clients"
+			}
+		}
 	}
 	why := "clients is mutated without the broker's write lock"
 	if nStates == 0 {
@@ -479,9 +509,8 @@ func c17MQTTDelete(c *core.Ctx, f *flow.Func, decl string, del *ast.CallExpr, cl
 	c.Check(nStates > 0 && badLock == nil, "R-C17-5", consLock, pos(c, del),
 		sprintf("delete(clients, id) is reachable (%d states), write-locked, and the lock is released on every exit", nStates), why, witness(badLock)...)
 	c.Check(badDead == nil, "R-C17-5", consDead, pos(c, del),
-		"every state at the delete has established, in the same critical section, that the client REGISTERED under the key is absent, disconnected, just closed, or identical to a given client",
-		"the entry is deleted without having established, in the same critical section, that the client currently REGISTERED under this id (looked up from Broker.clients) is absent, disconnected, just closed or the caller's own: after a client-id takeover the teardown of the superseded connection removes its live successor's entry, Broker.clients under-counts, and both cap tests admit more than maxAllowedConnection clients",
-		witness(badDead)...)
+		"every state at the delete has established, in the same critical section, that the client REGISTERED under the key is absent, disconnected, just closed, or identical to a given client (or it is closed on every path after the delete)",
+		whyDead, witness(badDead)...)
 
 }
 
